@@ -47,14 +47,14 @@ def parse_violation(r):
             "bad_verdict": runs_v, "execution": [[int(a), int(b), c] for a, b, c in trace]}
 
 
-def explore(ck, label, programs, box=2, univ=12, timeout=1500, spec="ProgSound", max_iter=6):
+def explore(ck, label, programs, box=2, univ=12, timeout=1500, spec="ProgSound", max_iter=6, runner="prog_runner"):
     """runs the analyzer on programs (each with 'runs'), then TLC; returns list of violations (dicts)"""
     wd = workdir(ck.pid.lower() + "-" + label)
     pp, op_, tp, xp = [os.path.join(wd, x) for x in ("p.ndjson", "o.ndjson", "progs.ndjson", "excl.json")]
     vlib.write_ndjson(pp, programs)
-    rc, out = vlib.sh([os.path.join(vlib.BUILD, "bin", "prog_runner"), pp, op_], timeout=3000, env={"VH_STEP_TIMEOUT": 30})
+    rc, out = vlib.sh([os.path.join(vlib.BUILD, "bin", runner), pp, op_], timeout=3000, env={"VH_STEP_TIMEOUT": 30})
     if rc != 0:
-        raise vlib.Broken("prog_runner failed (%d): %s" % (rc, out[-2000:]))
+        raise vlib.Broken("%s failed (%d): %s" % (runner, rc, out[-2000:]))
     recs = vlib.read_ndjson(op_)
     merged = proggen.merge(programs, recs)
     vlib.write_ndjson(tp, merged)
@@ -70,10 +70,15 @@ def explore(ck, label, programs, box=2, univ=12, timeout=1500, spec="ProgSound",
     excluded, viols = [], []
     for it in range(max_iter):
         json.dump(excluded, open(xp, "w"))
-        r = tlc(spec, spec, ck.pid.lower() + "-" + label, env={"PROGRAMS": tp, "EXCLUDED": xp, "BOX": box, "UNIV": univ},
+        kp = os.path.join(wd, "known.json")
+        vlib.write_known_for_spec(kp)
+        r = tlc(spec, spec, ck.pid.lower() + "-" + label, env={"PROGRAMS": tp, "EXCLUDED": xp, "BOX": box, "UNIV": univ, "KNOWN_FINDINGS": kp},
                 timeout=timeout)
         if it == 0:
             ck.add_tlc(r, spec + "/" + label)
+            for kf in {tuple(x) for x in r.tuples("KNOWN")}:
+                ck.known("KF-fwdbwd-refined-invariants-unreachable-verdict" if kf[0] == "refined-unreach" else kf[0],
+                         {"program": kf[1], "run": kf[2], "domain": kf[3]})
         if not r.is_violation:
             break
         v = parse_violation(r)
